@@ -365,6 +365,10 @@ func noteInputDisplays(v V, ext *Ext) {
 		for _, kv := range v.O {
 			noteInputDisplays(kv.V, ext)
 		}
+	case "fl":
+		for _, kv := range v.O {
+			noteInputDisplays(kv.V, ext)
+		}
 	case "s":
 		ext.NoteParse(v.S)
 	}
